@@ -8,6 +8,10 @@
 (*   "pipe"  : TransformedTargetForecaster(transformers ts, final kids[1])   *)
 (*   "mux"   : MultiplexForecaster(kids, selected = sel)                     *)
 (*   "stack" : StackingForecaster(kids, meta-regressor)                      *)
+(*   "online": OnlineEnsembleForecaster(kids, weighting algorithm): a        *)
+(*             weighted sum of the members; on every update the algorithm is  *)
+(*             shown what the members forecast for the NEW observations from  *)
+(*             the cutoff before them, and only then do the members see them  *)
 (* Data carry a REPRESENTATION: the sequence of transformer ids applied so   *)
 (* far (the recording transformers tag every value, the decoder reads the    *)
 (* tags back).  Transformer ids >= 7 carry the skip-inverse-transform tag.   *)
@@ -49,6 +53,8 @@ RECURSIVE Pull(_, _)
 Pull(v, rts) == IF Len(rts) = 0 THEN v
                 ELSE Pull(IF Skip(Head(rts)) THEN v ELSE Div(Sub(v, Q(Head(rts))), Q(10)), Tail(rts))
 Tagged(v, ts) == Pull(Push(v, ts), Reverse(ts))
+\* weights of the (stub) weighting algorithm for n members: dyadic, so that the weighted sum is exact in floating point
+OnW(n) == CASE n = 1 -> << Q(1) >> [] n = 2 -> << Frac(1, 4), Frac(3, 4) >> [] OTHER -> << Frac(1, 4), Frac(1, 4), Frac(1, 2) >>
 RECURSIVE Val(_, _, _, _)
 \* forecast of tree tr from cutoff c for the i-th of nfh requested steps; mk = number of meta-predict calls so far
 Val(tr, c, i, mk) ==
@@ -57,6 +63,7 @@ Val(tr, c, i, mk) ==
       [] tr.kind = "pipe"  -> Tagged(Val(tr.kids[1], c, i, mk), tr.ts)
       [] tr.kind = "mux"   -> Val(tr.kids[tr.sel], c, i, mk)
       [] tr.kind = "stack" -> Q(MTok(mk))
+      [] tr.kind = "online" -> SumN([j \in DOMAIN tr.kids |-> Mul(OnW(Len(tr.kids))[j], Val(tr.kids[j], c, i, mk))])
 
 \* a member's (integral) forecast token as it appears in the meta-regressor's feature matrix
 MemberTok(kid, c, i) == Val(kid, c, i, 1)[1]
@@ -67,7 +74,7 @@ RECURSIVE PredEv(_, _, _)
 \* fit of subtree tr on observations lo..hi given in representation rep, horizon steps fh
 FitEv(tr, rep, lo, hi, fh) ==
     CASE tr.kind = "leaf" -> << Ev("fit", tr.id, rep, lo, hi, FALSE, None, None) >>
-      [] tr.kind = "ens"  -> CatAll([j \in DOMAIN tr.kids |-> FitEv(tr.kids[j], rep, lo, hi, fh)])
+      [] tr.kind \in {"ens", "online"} -> CatAll([j \in DOMAIN tr.kids |-> FitEv(tr.kids[j], rep, lo, hi, fh)])
       [] tr.kind = "mux"  -> FitEv(tr.kids[tr.sel], rep, lo, hi, fh)         \* only the selected member
       [] tr.kind = "pipe" ->
             CatAll([k \in DOMAIN tr.ts |->
@@ -85,7 +92,7 @@ FitEv(tr, rep, lo, hi, fh) ==
             \o CatAll([j \in DOMAIN tr.kids |-> FitEv(tr.kids[j], rep, lo, hi, fh)])   \* then refit on everything
 PredEv(tr, c, fh) ==
     CASE tr.kind = "leaf" -> << Ev("predict", tr.id, None, c, c, FALSE, None, None) >>
-      [] tr.kind = "ens"  -> CatAll([j \in DOMAIN tr.kids |-> PredEv(tr.kids[j], c, fh)])
+      [] tr.kind \in {"ens", "online"} -> CatAll([j \in DOMAIN tr.kids |-> PredEv(tr.kids[j], c, fh)])
       [] tr.kind = "mux"  -> PredEv(tr.kids[tr.sel], c, fh)
       [] tr.kind = "pipe" ->
             PredEv(tr.kids[1], c, fh)
@@ -103,6 +110,15 @@ UpdEv(tr, rep, lo, hi, upd) ==
       [] tr.kind = "ens"  -> CatAll([j \in DOMAIN tr.kids |-> UpdEv(tr.kids[j], rep, lo, hi, upd)])
       [] tr.kind = "mux"  -> UpdEv(tr.kids[tr.sel], rep, lo, hi, upd)
       [] tr.kind = "stack" -> CatAll([j \in DOMAIN tr.kids |-> UpdEv(tr.kids[j], rep, lo, hi, upd)])
+      [] tr.kind = "online" ->
+            \* the members forecast the new observations lo..hi from the cutoff before them (batches are consecutive:
+            \* lo - 1), the algorithm compares forecasts and observations, then the members are updated
+            LET steps == [i \in 1..(hi - lo + 1) |-> i] IN
+            CatAll([j \in DOMAIN tr.kids |-> PredEv(tr.kids[j], lo - 1, steps)])
+            \o << Ev("ascore", 0, None, lo, hi, FALSE,
+                     [j \in DOMAIN tr.kids |-> [i \in DOMAIN steps |-> MemberTok(tr.kids[j], lo - 1, i)]],
+                     [i \in DOMAIN steps |-> YTok(lo - 1 + i)]) >>
+            \o CatAll([j \in DOMAIN tr.kids |-> UpdEv(tr.kids[j], rep, lo, hi, upd)])
       [] tr.kind = "pipe" ->
             CatAll([k \in DOMAIN tr.ts |->
                       (IF HasUpdate(tr.ts[k])
@@ -149,6 +165,17 @@ StackHeldOut(c, o) ==
     c.tree.kind = "stack" =>
         \A p \in DOMAIN o.events : o.events[p].ev = "mfit" =>
             \A q \in 1..(p - 1) : o.events[q].ev = "fit" => o.events[q].hi < c.n - LastS(c.fh)
-CClauseNames == << "FinalOnlySeesFullChain", "MuxOnlySelected", "StackHeldOut" >>
+\* the forecasts an online ensemble is weighted by are made before any member has seen the observations they are
+\* compared with: every member call between the previous scoring (or fit) and a scoring event is a predict from a
+\* cutoff before the scored stretch
+OnlineScoresUnseen(c, o) ==
+    c.tree.kind = "online" =>
+        \A p \in DOMAIN o.events : o.events[p].ev = "ascore" =>
+            \A q \in 1..(p - 1) :
+                /\ ((o.events[q].ev = "predict" /\ \A r \in (q + 1)..(p - 1) : o.events[r].ev = "predict")
+                        => (o.events[q].hi < o.events[p].lo))
+                /\ ((o.events[q].ev \in {"fit", "update"}) => (o.events[q].hi < o.events[p].lo))
+CClauseNames == << "FinalOnlySeesFullChain", "MuxOnlySelected", "StackHeldOut", "OnlineScoresUnseen" >>
 CClauseHolds(i, c, o) == CASE i = 1 -> FinalOnlySeesFullChain(c, o) [] i = 2 -> MuxOnlySelected(c, o) [] i = 3 -> StackHeldOut(c, o)
+                           [] i = 4 -> OnlineScoresUnseen(c, o)
 =============================================================================
